@@ -35,7 +35,7 @@ EXPLANATION = ("Proved (Lean, unbounded): Token::Match's documented language, th
                "through ordered containers keyed by name, str() comparisons outside patterns, name-prefix tests, symbol-database "
                "definition order, value flow. Token classification (tokType/isName/varId) is assumed unchanged by the renaming.")
 THEOREMS = ["Cppcheck.C05.lexRaw_of_layout", "Cppcheck.C05.tokens_of_layout", "Cppcheck.C05.combine_relocation", "Cppcheck.C05.lexer_layout",
-            "Cppcheck.C05.lexer_layout_lineShift", "Cppcheck.C05.executable_scope_probe_dead",
+            "Cppcheck.C05.lexer_layout_lineShift", "Cppcheck.C05.comment_line_insertion_not_neutral", "Cppcheck.C05.executable_scope_probe_dead",
             "Cppcheck.C05.match_equivariant", "Cppcheck.C05.match_equivariant_compiled", "Cppcheck.C05.match_equivariant_interpreted",
             "Cppcheck.C05.findmatch_equivariant", "Cppcheck.C05.renaming_equivariant", "Cppcheck.C05.all_source_patterns_equivariant",
             "Cppcheck.C05.all_source_patterns_equivariant_compiled"]
@@ -420,6 +420,21 @@ STYLES = {
 }
 
 LAYOUT_SENSITIVE_IDS = {"suspiciousSemicolon", "duplicateBreak", "unreachableCode", "commaSeparatedReturn", "misleadingIndentation"}
+LINE_READING_IDS = {"suspiciousSemicolon", "duplicateBreak", "unreachableCode", "commaSeparatedReturn"}     # documented purpose reads LINE numbers only
+
+
+def excluded_ids(kind):
+    """checks whose documented purpose depends on layout, per rewrite kind: a rewrite that keeps every token on its line
+    (spaces within a line, CRLF) is still compared on the line-reading checks"""
+    if kind.startswith("witness:"):
+        kind = kind[len("witness:"):]
+    if kind in ("layout:spaces", "layout:crlf"):
+        return LAYOUT_SENSITIVE_IDS - LINE_READING_IDS
+    if kind.startswith("layout"):
+        return LAYOUT_SENSITIVE_IDS
+    if kind == "rename":
+        return NAME_SENSITIVE_IDS
+    return set()
 NAME_SENSITIVE_IDS = set()     # nothing excluded for renaming so far: injective renaming keeps shadowing relations
 
 
@@ -428,11 +443,13 @@ _RUN_CACHE = {}
 _RUN_SEQ = [0]
 
 
-def run_cppcheck(ctx, text, name="t.c", fresh=False):
-    """findings of one file (memoised per text; every run in its own directory)"""
+def run_cppcheck(ctx, text, name="t.c", fresh=False, lang="c"):
+    """findings of one file (memoised per text and language; every run in its own directory)"""
+    name = "t.cpp" if lang == "c++" else name
+    ckey = lang + "|" + text
     with _RUN_LOCK:
-        if not fresh and text in _RUN_CACHE:
-            return _RUN_CACHE[text]
+        if not fresh and ckey in _RUN_CACHE:
+            return _RUN_CACHE[ckey]
         _RUN_SEQ[0] += 1
         d = os.path.join(ctx.tmp, "cli", "r%06d" % _RUN_SEQ[0])
     os.makedirs(d, exist_ok=True)
@@ -441,14 +458,14 @@ def run_cppcheck(ctx, text, name="t.c", fresh=False):
     r = None
     for attempt in range(4):
         try:
-            r = subprocess.run([ctx.cppcheck, "--enable=all", "--inconclusive", "--xml", "-q", "--language=c", name], cwd=d,
+            r = subprocess.run([ctx.cppcheck, "--enable=all", "--inconclusive", "--xml", "-q", "--language=" + lang, name], cwd=d,
                                stdout=subprocess.PIPE, stderr=subprocess.PIPE, timeout=120)
         except OSError:
             time.sleep(0.5); continue
         if r.returncode == 0 and b"</results>" in r.stderr:
             out = parse_xml(r.stderr.decode("utf-8", "replace"))
             with _RUN_LOCK:
-                _RUN_CACHE.setdefault(text, out)
+                _RUN_CACHE.setdefault(ckey, out)
             return out
         time.sleep(0.3)      # the binary may be relinked by a concurrent check
     raise core.CheckBroken("cppcheck run failed rc=%s: %s" % (getattr(r, "returncode", None), (r.stderr[-300:] if r else b"")))
@@ -542,9 +559,9 @@ def make_rewrite(rng, prog, kind, reserved_all, special=False):
 
 def compare_pair(ctx, rw, fresh=False):
     """P_impl on one pair.  Returns (ok, detail dict)"""
-    f0 = run_cppcheck(ctx, rw["text0"], fresh=fresh)
-    f1 = run_cppcheck(ctx, rw["text1"], fresh=fresh)
-    excl = LAYOUT_SENSITIVE_IDS if rw["kind"].startswith("layout") else NAME_SENSITIVE_IDS if rw["kind"] == "rename" else set()
+    f0 = run_cppcheck(ctx, rw["text0"], fresh=fresh, lang=rw.get("lang", "c"))
+    f1 = run_cppcheck(ctx, rw["text1"], fresh=fresh, lang=rw.get("lang", "c"))
+    excl = excluded_ids(rw["kind"])
     exp, unm = [], []
     for f in f0:
         if f["id"] in excl:
@@ -756,6 +773,77 @@ def layout_tie(ctx, res, drv, exe, token_lists, violate_share=0.2):
                       dict(kind="layoutpair", src=core.hx(a), src2=core.hx(b), tokens=t1, tokens2=t2), concrete=True, key=None)
 
 
+def elems_text(es):
+    out = []
+    for k, v in es:
+        out.append("\n" if k == "n" else "//" + v if k == "l" else "/*" + v + "*/" if k == "b" else v)
+    return "".join(out)
+
+
+CXX_DECLS = [["static", "void", "fn1", "(", "const", "int", "&=", "2", ")", ";"],
+             ["void", "fn2", "(", "int", "a", ",", "const", "long", "&=", "0", ")", "{", "}"],
+             ["int", "*", "fn3", "(", "void", ")", ";", "x", "&=", "y", ";"]]
+
+
+def comment_line_tie(ctx, res, exe, token_lists):
+    """rewrite family "insert comment-only lines" on the REAL lexer (no theorem: comments are tokens while combineOperators runs):
+    tokens(src with comment lines) == tokens(src) up to a monotone line shift.  P_impl at lexer level."""
+    rng = ctx.rng
+    cases = []
+    for toks in token_lists:
+        es, _ = gen_layout_pair(rng, toks)
+        es3, ins = [], 0
+        for e in [("n", "")] + es:
+            es3.append(e)
+            if e[0] == "n" and rng.random() < 0.45:
+                es3 += [("w", c) for c in rng.choice(["", "  ", "\t"])]
+                if rng.random() < 0.5:
+                    es3 += [("l", rng.choice([" c", "", " note: x = 1;", "/"])), ("n", "")]
+                else:
+                    es3 += [("b", rng.choice([" c ", "", " a * b ", " two\n lines "]))] + [("w", c) for c in rng.choice(["", " "])] + [("n", "")]
+                ins += 1
+        a, b = "\n" + elems_text(es), elems_text(es3)
+        if ins == 0:
+            continue
+        cases.append((a, b))
+    eval_comment_pairs(ctx, res, exe, cases)
+
+
+def eval_comment_pairs(ctx, res, exe, cases):
+    ops = []
+    for a, b in cases:
+        ops += ["tokens " + core.hx(a), "tokens " + core.hx(b)]
+    rc, out, err = core.run_lines(exe, [], ops)
+    if len(out) != len(ops):
+        res.oblig("correspondence:comment-lines", False, "correspondence", "harness produced %d lines for %d ops" % (len(out), len(ops)))
+        return
+    nbad = 0
+    for k, (a, b) in enumerate(cases):
+        t0 = [t.split(":") for t in out[2 * k].split()[1:]]
+        t1 = [t.split(":") for t in out[2 * k + 1].split()[1:]]
+        ok = len(t0) == len(t1) and all(x[0] == y[0] and x[2] == y[2] and x[3:] == y[3:] for x, y in zip(t0, t1))
+        if ok:
+            lm = {}
+            for x, y in zip(t0, t1):
+                if lm.setdefault(int(x[1]), int(y[1])) != int(y[1]) or int(y[1]) < int(x[1]):
+                    ok = False
+            ks = sorted(lm)
+            ok = ok and all(lm[p] < lm[q] for p, q in zip(ks, ks[1:]))
+        res.case("comment-lines|" + a + "|" + b, len(t0) >= 3, dict(tie="comment-lines", src=a[:160], edited=b[:160], equal=ok) if k % max(1, len(cases) // 2) == 0 else None)
+        res.count("comment-lines:" + ("equal" if ok else "DIFFER"))
+        if ok:
+            res.traces_validated += 1
+            continue
+        nbad += 1
+        sp0 = [core.unhx(x[0]).decode("latin-1") for x in t0]
+        sp1 = [core.unhx(x[0]).decode("latin-1") for x in t1]
+        key = KEY_ANDASSIGN if andassign_only(sp0, sp1) else None
+        if nbad <= 10:
+            res.violation("inserting comment-only lines changes the token stream of the real lexer: src=%r edited=%r tokens=%s vs %s" % (a[:200], b[:200], sp0[:40], sp1[:40]),
+                          dict(kind="layoutpair", rewrite="layout:comment-line", src=core.hx(a), src2=core.hx(b), replay_cmd="./check.py C05 --replay <this file>"),
+                          concrete=True, key=key)
+
+
 # ---- the check --------------------------------------------------------------------------------------------------------
 def cached_extract(ctx):
     """extraction is a pure function of lib/*.cpp, lib/*.h, cfg/std.cfg and tools/matchcompiler.py: memoise on their content"""
@@ -834,21 +922,68 @@ KEY_SHADOW = "layout-lines:shadowVariable-later-declaration-same-line"
 KEY_CR = "lexer-file:lone-cr-unget"
 
 
+KEY_ANDASSIGN = "layout-comment-line:andassign-funcdecl-lookback-stops-at-comment"
+_EXE = {}
+
+
+def real_spellings(text):
+    """token spellings of the real simplecpp lexer (comments removed) - used by classifiers only"""
+    exe = _EXE.get("exe")
+    if not exe:
+        return None
+    rc, out, err = core.run_lines(exe, [], ["tokens " + core.hx(text)])
+    if len(out) != 1:
+        return None
+    return [core.unhx(t.split(":")[0]).decode("latin-1") for t in out[0].split()[1:]]
+
+
+def andassign_only(sp0, sp1):
+    """do the two spelling lists differ exactly by `&`,`=` in one and `&=` in the other (at least once, nothing else)?"""
+    if sp0 is None or sp1 is None or sp0 == sp1:
+        return False
+    def split(sp):
+        out = []
+        for t in sp:
+            out += ["&", "="] if t == "&=" else [t]
+        return out
+    return split(sp0) == split(sp1)
+
+
+def union_member_outside(text, member):
+    """is `member` declared directly in a struct that also holds an anonymous union (not inside the union)?"""
+    for m in re.finditer(r"struct\s+\w+\s*\{", text):
+        i, depth, j = m.end(), 1, m.end()
+        while j < len(text) and depth:
+            depth += {"{": 1, "}": -1}.get(text[j], 0); j += 1
+        body = re.sub(r"/\*.*?\*/|//[^\n]*", " ", text[i:j - 1], flags=re.S)
+        um = re.search(r"\bunion\s*\{[^{}]*\}\s*;", body)
+        if um and re.search(r"\b%s\b" % re.escape(member), body[:um.start()] + body[um.end():]):
+            return True
+    return False
+
+
 def classify_meta(rw, d, f_with):
     """known-finding classes of a metamorphic difference; returns key or None.  Every differing finding must fall into ONE class."""
-    if rw["kind"] not in LINE_LAYOUTS and not rw["kind"].startswith("witness"):
-        return None
     if d["unmappable"]:
         return None
+    kind = rw["kind"][len("witness:"):] if rw["kind"].startswith("witness:") else rw["kind"]
     diff = d["missing"] + d["extra"]
     ids = set(x[0] for x in diff)
-    if ids == {"uninitStructMember"}:
-        # the struct of the flagged member has an anonymous union (the code decides "inside the union" by line numbers)
-        if re.search(r"struct\s+\w+\s*(/\*.*?\*/\s*)*\{[^{}]*union\s*(/\*.*?\*/\s*)*\{", rw["text0"], re.S):
-            return KEY_UNION
+    # F05d: a comment between the return type and the name of a function whose parameter list holds an anonymous reference
+    # parameter with a default value (`&=` glued): simplecpp's look-back stops at the comment token
+    if kind in ("layout:comments", "layout:mixed", "layout:comment-line") and andassign_only(real_spellings(rw["text0"]), real_spellings(rw["text1"])):
+        return KEY_ANDASSIGN
+    if kind not in LINE_LAYOUTS and kind != "layout:join-lines":
         return None
+    if ids == {"uninitStructMember"}:
+        # (fixed d5d76f4) the flagged member is declared directly in a struct that also holds an anonymous union
+        for x in diff:
+            mm = re.search(r"Uninitialized struct member: \w+\.(\w+)", x[3])
+            if not mm or not (union_member_outside(rw["text0"], mm.group(1)) or union_member_outside(rw["text1"], mm.group(1))):
+                return None
+        return KEY_UNION
     if ids == {"shadowVariable"}:
-        # reported only where the shadowed declaration sits on the same line *behind* the shadowing one
+        # (fixed d02fc5c) reported only where the shadowed declaration sits on the same line *behind* the shadowing one
         for x in diff:
             locs = x[5]
             if len(locs) != 2 or not (locs[0][0] == locs[1][0] and locs[1][1] > locs[0][1]):
@@ -895,7 +1030,7 @@ def report_meta(ctx, res, triples):
         ids = sorted(set([m[0] for m in d["missing"]] + [m[0] for m in d["extra"]] + [u["id"] for u in d["unmappable"]]))
         res.violation("findings differ under a meaning-preserving rewrite (%s): ids %s; missing in rewrite: %s; only in rewrite: %s; unmappable: %s" %
                       (rw["kind"], ids, d["missing"][:3], d["extra"][:3], [u["id"] for u in d["unmappable"]][:3]),
-                      dict(kind="meta", rewrite=rw["kind"], text0=rw["text0"], text1=rw["text1"], posmap=[[list(a), list(b)] for a, b in rw["posmap"].items()],
+                      dict(kind="meta", rewrite=rw["kind"], lang=rw.get("lang", "c"), text0=rw["text0"], text1=rw["text1"], posmap=[[list(a), list(b)] for a, b in rw["posmap"].items()],
                            namemap=rw["namemap"], missing=d["missing"], extra=d["extra"], replay_cmd="./check.py C05 --replay <this file>"),
                       concrete=True, key=key)
 
@@ -951,12 +1086,23 @@ def file_tie(ctx, res, exe, srcs, buf_out):
             break
 
 
+_CFGW = set()
+
+
 def match_tie(ctx, res, drv, exe, ex, lean_like, allres, n_pat, per):
     """P_impl of part 1 on the real interpreted matcher: Match(p, ts) == Match(p, rename(ts)); plus impl == model `sem`"""
     rng = ctx.rng
     usable = [p for p in ex["patterns"] if "\\" not in p and '"' not in p and p.strip()]
     pats = rng.sample(usable, min(n_pat, len(usable)))
-    fresh_pool = [n for n in NAME_POOL + ["ABC", "kBig", "_x9", "zz_top", "Q"] if n not in allres]
+    # target names are drawn from the theorem's own domain: every identifier that is NOT in the Lean `reserved` set - library
+    # function names (malloc, free, strlen ...), words of lib/ string literals and of cfg/std.cfg included; only the language
+    # keywords are left out (renaming onto a keyword is not a renaming of identifiers)
+    kw = set(C_KEYWORDS)
+    domain = sorted(w for w in (set(ex["id_lits"]) | set(ex["cfg_words"]) | set(NAME_POOL) | {"ABC", "kBig", "_x9", "zz_top", "Q"})
+                    if IDENT.match(w) and w not in lean_like and w not in kw)
+    res.extra["match_rename_domain"] = len(domain)
+    res.extra["match_rename_domain_library_names"] = len([w for w in domain if w in set(ex["cfg_words"])])
+    fresh_pool = rng.sample(domain, min(len(domain), 600)) + [w for w in ("malloc", "free", "strlen", "printf", "memcpy", "size", "data") if w in domain]
     ops, meta = [], []
     for p in pats:
         lits = [w for w in re.split(r"[ |]", p) if w and not w.startswith(("%", "[", "!!"))] or ["x"]
@@ -975,6 +1121,7 @@ def match_tie(ctx, res, drv, exe, ex, lean_like, allres, n_pat, per):
             for tk in (toks, toks2):
                 ops.append("match %s %d %d %s" % (core.hx(p), v, len(tk), " ".join("%s %d" % (core.hx(s), vi) for s, vi in tk)))
             meta.append((p, v, toks, toks2, sigma))
+    _CFGW.clear(); _CFGW.update(ex["cfg_words"])
     rc, out, err = core.run_lines(exe, [], ops)
     if len(out) != len(ops):
         res.oblig("correspondence:match-renamed", False, "correspondence", "harness produced %d lines for %d ops: %s" % (len(out), len(ops), err[-300:]))
@@ -996,6 +1143,8 @@ def match_tie(ctx, res, drv, exe, ex, lean_like, allres, n_pat, per):
         res.case("match|%s|%d|%s|%s" % (p, v, toks, sorted(sigma.items())), changed and len(toks) > 0,
                  dict(tie="match-renamed", pattern=p, tokens=" ".join(s for s, _ in toks), renamed=" ".join(s for s, _ in toks2), impl=I0, impl_renamed=I1) if k % max(1, len(meta) // 3) == 0 else None)
         res.count("match:" + ("renamed" if changed else "unchanged"))
+        if any(b in _CFGW for b in sigma.values()):
+            res.count("match:renamed-onto-library-or-cfg-name")
         if aout[k] != "1":
             bad_avoid.append((sigma, aout[k]))
         if m0.group(1) != m1.group(1):
@@ -1023,7 +1172,8 @@ def load_corpus():
 
 
 def witness_rw(w):
-    return dict(kind="witness:" + w["rewrite"], text0=w["text0"], text1=w["text1"], posmap={tuple(a): tuple(b) for a, b in w["posmap"]}, namemap=w.get("namemap"))
+    return dict(kind="witness:" + w["rewrite"], text0=w["text0"], text1=w["text1"], posmap={tuple(a): tuple(b) for a, b in w["posmap"]}, namemap=w.get("namemap"),
+                lang=w.get("lang", "c"))
 
 
 def run(ctx, res):
@@ -1041,6 +1191,7 @@ def run(ctx, res):
     core.prove(ctx, res, MODULES, THEOREMS)
     drv = ctx.driver("drv_c05")
     exe = ctx.harness("c05")
+    _EXE["exe"] = exe
     tm["prove+build"] = round(time.time() - t0, 1); t0 = time.time()
 
     # ---- T1: the reserved set ---------------------------------------------------------------------------------------
@@ -1061,6 +1212,8 @@ def run(ctx, res):
     trip = meta_pairs(ctx, res, cli_w, "corpus")
     report_meta(ctx, res, trip)
     lex_w = [core.unhx(w["src"]).decode("latin-1") for w in wit if w["kind"] == "lexfile"]
+    eval_comment_pairs(ctx, res, exe, [(core.unhx(w["src"]).decode("latin-1"), core.unhx(w["src2"]).decode("latin-1")) for w in wit if w["kind"] == "lexpair"])
+    lex_w += [core.unhx(w[k]).decode("latin-1") for w in wit if w["kind"] == "lexpair" for k in ("src", "src2")]
 
     # ---- C1: lexer -----------------------------------------------------------------------------------------------------
     n_lex = 12000 if thorough else 2000
@@ -1078,7 +1231,7 @@ def run(ctx, res):
     tm["lexer"] = round(time.time() - t0, 1); t0 = time.time()
     # ---- C2: theorem lexer_layout against the real lexer ---------------------------------------------------------------
     tl = []
-    for i in range(300 if thorough else 60):
+    for i in range(3000 if thorough else 800):
         if i % 2 == 0:
             pr = gen_program(rng, allres)
             lines = layout_default(pr)
@@ -1089,6 +1242,8 @@ def run(ctx, res):
                                    ">=", "+=", "::", "...", "<<", ">>"] + list("+-*/%&|^~!<>=?:;,.()[]{}") + ['"s t"', "'c'", r'"q"q"'])
                        for _ in range(rng.choice([3, 6, 10, 16]))])
     layout_tie(ctx, res, drv, exe, tl)
+    valid_lists = [t for k, t in enumerate(tl) if k % 2 == 0][:400 if thorough else 150] + CXX_DECLS * (12 if thorough else 4)
+    comment_line_tie(ctx, res, exe, valid_lists)
     tm["layout"] = round(time.time() - t0, 1); t0 = time.time()
     # ---- C3: pattern matching under renaming ---------------------------------------------------------------------------
     match_tie(ctx, res, drv, exe, ex, lean_like, allres, 400 if thorough else 90, 6 if thorough else 4)
@@ -1136,13 +1291,21 @@ def run(ctx, res):
             for kind in kinds:
                 pairs2.append(make_rewrite(rng, prog, kind, allres))
         report_meta(ctx, res, meta_pairs(ctx, res, pairs2, "search"))
+    res.assumptions += [
+        "the tokenizer gives a renamed spelling the same tokType / isName / varId as the old one (mapTok changes the spelling only); "
+        "checked per generated renaming on names drawn from ALL identifiers outside Gen.Reserved.reserved (library and cfg names included), keywords excepted",
+        "meaning preservation of the CLI renamings: target names additionally avoid every identifier-like word of lib/ string literals, cfg/std.cfg and the keywords",
+        "layout theorems: the comments of the original stay in place (lexer_layout), no line is joined or split (presB), three consecutive '.' tokens share a line (dotsOKB); "
+        "comment-line insertion, line joins/splits are sampled on the real lexer and by CLI pairs only",
+        "the lexer model is tied to simplecpp::TokenList(buffer); the filename constructor the CLI uses is compared with it on the same bytes on every run"]
     res.notes.append("outside the model (only sampled by the CLI pairs): name dependence through ordered containers, str() comparisons outside patterns, "
                      "definition-order dependence of the symbol database / value flow")
 
 
 def replay(ctx, res, rp):
     if rp.get("kind") == "meta":
-        rw = dict(kind="witness:" + rp.get("rewrite", "?"), text0=rp["text0"], text1=rp["text1"], posmap={tuple(a): tuple(b) for a, b in rp["posmap"]}, namemap=rp.get("namemap"))
+        rw = dict(kind="witness:" + rp.get("rewrite", "?"), text0=rp["text0"], text1=rp["text1"], posmap={tuple(a): tuple(b) for a, b in rp["posmap"]}, namemap=rp.get("namemap"),
+                  lang=rp.get("lang", "c"))
         ok, d = compare_pair(ctx, rw, fresh=True)
         print("replay: findings %s under the rewrite (missing=%s extra=%s)" % ("EQUAL" if ok else "DIFFER", d["missing"][:3], d["extra"][:3]))
         if not ok:
